@@ -638,10 +638,24 @@ pub fn compare_store(root: &Path, ws: &Path, image: &DirImage, truth: &Truth, qu
 pub fn compare_store_only(root: &Path, ws: &Path, image: &DirImage, truth: &Truth, query_seed: u64, max_threads: usize, stats: &mut RunStats, known: &[String], fault_log: &[(String, String)], only: Option<&[String]>) -> Result<Option<Violation>, String> {
     // thread lookup by id goes through index.json, whose loss is only claimed for default-thread
     // recovery: query the threads the index knows
-    let indexed: Option<Vec<String>> = image
-        .get("continuities/index.json")
-        .and_then(|b| serde_json::from_slice::<Value>(b).ok())
-        .and_then(|v| v.get("continuities").and_then(|c| c.as_object()).map(|o| o.keys().cloned().collect()));
+    // (the threads it has a record for, and the default threads it maps workspaces to — a default
+    // thread found again by scanning the log after the index was lost is back-filled into the
+    // workspace map only)
+    // threads without a record are compared between the two cache states only, not with the model:
+    // lookups by id answer not-found for them, which no clause here judges.
+    let mut no_record: Vec<String> = Vec::new();
+    let indexed: Option<Vec<String>> = image.get("continuities/index.json").and_then(|b| serde_json::from_slice::<Value>(b).ok()).and_then(|v| {
+        let mut ids: Vec<String> = v.get("continuities").and_then(|c| c.as_object()).map(|o| o.keys().cloned().collect())?;
+        if let Some(w) = v.get("workspaces").and_then(|w| w.as_object()) {
+            for id in w.values().filter_map(|x| x.as_str()) {
+                if !ids.iter().any(|k| k == id) {
+                    ids.push(id.to_string());
+                    no_record.push(id.to_string());
+                }
+            }
+        }
+        Some(ids)
+    });
     let Some(indexed) = indexed else {
         return Ok(None);
     };
@@ -695,6 +709,9 @@ pub fn compare_store_only(root: &Path, ws: &Path, image: &DirImage, truth: &Trut
             });
         }
         if found.is_none() {
+            if no_record.contains(&q.thread) {
+                continue;
+            }
             if let Some(m) = model_answer(truth, q) {
                 stats.bump("queries_compared_with_model", 1);
                 if !same_model(q, rb, &m) {
